@@ -195,6 +195,29 @@ def m_unwrap_or(ex, p, call, k):
         split_enum(ex, p, v, 'Option', OPTION, kk, opt_payload_ty(v))
 
 
+def m_unwrap_or_default(ex, p, call, k):
+    """Option/Result::unwrap_or_default: the payload, or `<T as Default>::default()` (dispatched like a call of the program, so that a model or a
+    local impl of it applies; integers default to 0)"""
+    v = call.args[0]
+    ty = (call.retty or '').strip()
+
+    def kk(q, name, pay):
+        if name in ('Some', 'Ok'):
+            return k(q, pay[0])
+        m = re.fullmatch(r'(u|i)(8|16|32|64|128|size)', ty)
+        if m:
+            return k(q, z3.BitVecVal(0, 64 if m.group(2) == 'size' else int(m.group(2))))
+        if ty == 'bool':
+            return k(q, z3.BoolVal(False))
+        from mirsym.sym import Call
+        c = Call(f'<{ty} as Default>::default', [], ty, call.span, call.fn, call.depth, call.frame)
+        ex.dispatch(q, c, k)
+    if 'Result' in call.short:
+        split_enum(ex, p, v, 'Result', RESULT, kk, res_payload_ty(v))
+    else:
+        split_enum(ex, p, v, 'Option', OPTION, kk, opt_payload_ty(v))
+
+
 def _closure_apply(ex, p, clo, args, call, k):
     ex.call_closure(p, clo, args, call, k)
 
@@ -924,6 +947,7 @@ GLOBAL_MODELS = [
     (R(r'(Option|Result)::(is_some|is_none|is_ok|is_err)$'), m_opt_is),
     (R(r'(Option|Result)::(unwrap|expect)$'), m_unwrap),
     (R(r'(Option|Result)::unwrap_or$'), m_unwrap_or),
+    (R(r'(Option|Result)::unwrap_or_default$'), m_unwrap_or_default),
     (R(r'(Option|Result)::(map|map_err|and_then|unwrap_or_else|ok_or_else|or_else|filter|is_some_and|is_ok_and|is_none_or|is_err_and)$'), m_opt_map),
     (R(r'(Option|Result)::(map_or|map_or_else)$'), m_map_or),
     (R(r'Option::ok_or$'), m_ok_or),
